@@ -22,7 +22,9 @@ pub struct G<'a> { pub u: Src<'a>, pub out: String, pub marks: Vec<Mark>, pub de
 
 const IDENTS: &[&str] = &["a", "b", "x1", "_v", "abc", "var_2", "tbl", "col", "é1", "mylib", "Z"];
 const MNAMES: &[&str] = &["m", "mymac", "util_1", "_m", "doit", "M2"];
-const MVARS: &[&str] = &["v", "mv", "i", "n1", "_x", "lib", "Dsn"];
+// names of *called* macros may contain non-ASCII letters (definitions stay ASCII, as the lexer documents)
+const CALLNAMES: &[&str] = &["m", "mymac", "util_1", "_m", "doit", "M2", "größe", "тест", "é", "m"];
+const MVARS: &[&str] = &["v", "mv", "i", "n1", "_x", "lib", "Dsn", "é", "тест"];
 const OPEN_KW: &[&str] = &["data", "set", "run", "proc", "if", "then", "else", "do", "end", "by", "where", "select", "from", "output", "keep", "format", "input", "put", "length", "_null_", "and", "or", "not", "in", "eq", "ne"];
 const OPEN_SYM: &[&str] = &["=", "+", "-", "/", "<", ">", "<=", ">=", "^=", "~=", "||", "|", "!!", ",", ".", ":", "@", "#", "?", "**", "<>", "><", "=*", "{", "}", "[", "]", "&", "&&", "%", "$", "¬", "¬="];
 const WORDS: &[&str] = &["a", "abc", "x1", "some", "text", "v_1", "é", "data", "q2"];
@@ -129,7 +131,8 @@ impl<'a> G<'a> {
     // ctx: 0 = open code / text, 1 = inside string expr, 2 = inside macro arg/value
     fn user_call(&mut self, _ctx: usize) {
         self.feat("user-call");
-        let name = self.pick(MNAMES); self.p("%"); self.p(name);
+        let name = self.pick(CALLNAMES); self.p("%"); self.p(name);
+        if !name.is_ascii() { self.feat("non-ascii-macro-name"); }
         if self.u.coin(1, 3) { return; } // argless; callers add a non-( follower
         self.ows();
         self.mark("(", MK::Delim("LPAREN", false));
@@ -279,7 +282,7 @@ impl<'a> G<'a> {
             }
         }
     }
-    fn name_expr(&mut self) { match self.u.below(6) { 5 => { self.feat("name-expr-call"); self.p("%"); let m = self.pick(MNAMES); self.p(m); self.p("(a)"); if self.u.coin(1, 2) { self.p("_s"); } } 0 | 1 => { let v = self.pick(MVARS); self.p(v); } 2 => { let v = self.pick(MVARS); self.p(v); self.mvar(false); } 3 => { self.mvar(false); } _ => { let v = self.pick(MVARS); self.p(v); self.p("_"); self.p("&i."); self.p("x"); } } }
+    fn name_expr(&mut self) { match self.u.below(6) { 5 => { self.feat("name-expr-call"); self.p("%"); let m = self.pick(CALLNAMES); self.p(m); self.p("(a)"); if self.u.coin(1, 2) { self.p("_s"); } } 0 | 1 => { let v = self.pick(MVARS); self.p(v); } 2 => { let v = self.pick(MVARS); self.p(v); self.mvar(false); } 3 => { self.mvar(false); } _ => { let v = self.pick(MVARS); self.p(v); self.p("_"); self.p("&i."); self.p("x"); } } }
     fn let_stmt(&mut self) { self.feat("let"); self.p("%let"); self.rws(); self.name_expr(); self.ows(); self.del_mark("=", "ASSIGN", "MissingExpectedAssign", false); self.ows(); self.text_expr(); self.mark(";", MK::Delim("SEMI", false)); }
     fn put_stmt(&mut self) { self.feat("put"); self.p("%put"); self.rws(); self.text_expr(); self.mark(";", MK::Delim("SEMI", false)); }
     fn comment_stmt(&mut self) { self.feat("comment-stmt"); match self.u.below(4) { 0 => self.p("* a comment, with 'stuff;"), 1 => self.p("%* macro comment 'with ; quoted' \"and ;\";"), 2 => self.p("/* block ; comment */"), _ => self.p("*;") } }
